@@ -5,6 +5,7 @@ import FormulaicVerif.Proofs.C01
 import FormulaicVerif.Proofs.C01Grammar
 import FormulaicVerif.Proofs.ShuntSound
 import FormulaicVerif.Proofs.C01Intercept
+import FormulaicVerif.Proofs.C01TopLevel
 /-! # C01 — Formula strings denote exactly the documented Wilkinson term algebra
 
 Property theorems only (helpers: `Proofs/ShuntComplete.lean`, `Proofs/C01.lean`). They are about
@@ -13,7 +14,10 @@ the very definitions the correspondence engine `c01` runs (`Model/{Tokenize,Toke
 What is proved, for ALL inputs: the live operator table is the documented one (all 8 flag subsets);
 the shunting-yard returns the documented tree for every expression of the documented arithmetic
 grammar (`grammar_parses`: Sum/Prod/Inter/Pow/Atom levels, unbounded nesting and chains; via the more
-general `shunt_complete`); conversely an accepted token list is never re-ordered, dropped from or
+general `shunt_complete`); the documented TOP level `Parts ~ Parts`, `Parts := Sum | Sum '|' Parts`,
+parses to its documented tree and evaluates to the documented `{lhs, rhs}` structure of term sets /
+tuples of term sets, and the flag-disabled forms and a second `~` are rejected (C01.3a–e, C01.7a–c;
+`Proofs/C01TopLevel.lean`); conversely an accepted token list is never re-ordered, dropped from or
 duplicated (`shunt_preserves_tokens`: the in-order reading of the returned tree is the input token list
 without its brackets, each operator token replaced by the operators chosen for it; helpers in
 `Proofs/ShuntSound.lean`); the token-level intercept insertion for one-sided formulas and for formulas with
@@ -400,5 +404,189 @@ example : runTokens true [nm "a", op "+", zero] = runTokens false [nm "a"]
   ⟨rfl, rfl, rfl⟩
 
 end InterceptSeparators
+
+/-! ### C01.3 continued — the documented TOP level of the grammar: `~` and `|`
+
+Vocabulary (`Proofs/C01TopLevel.lean`; `Sum` is the arithmetic grammar of C01.3'): a *side* of a formula
+is a chain of parts `p | q₁ | … | qₙ` (`n ≥ 0`) given as `p : Sum` and `[q₁,…,qₙ] : List Sum`;
+`partsToks p [q₁,…,qₙ] = lin p ++ [|] ++ lin q₁ ++ … ++ [|] ++ lin qₙ` (`partsToks_eq`) are its tokens,
+`partsTree p [q₁,…,qₙ] = |(tree p, |(tree q₁, … |(tree qₙ₋₁, tree qₙ)))` its documented tree (for
+`n = 0` just `tree p`); `tilde`, `tildeP`, `bar` are the enabled two-sided `~`, the one-sided `~` and
+`|` of the operator table; `opTok ['~']`, `opTok ['|']` the operator tokens. -/
+section TopLevel
+open FormulaicVerif.Proofs.C01TopLevel
+
+/-- C01.3a  **Every two-sided multi-part formula parses to its documented tree.** For arbitrary `Sum`s
+`l, l₁…lₘ, p, q₁…qₙ` of the documented arithmetic grammar (`m, n ≥ 0`, unbounded), the token list
+`l | l₁ | … | lₘ ~ p | q₁ | … | qₙ` is parsed by the shunting-yard, with the table the LIVE resolver
+builds for TWOSIDED and MULTIPART (either value of MULTISTAGE), to exactly
+`~(side(l, l₁…lₘ), side(p, q₁…qₙ))`: `~` binds loosest, `|` next, every part is parsed as in C01.3'.
+The left-hand side may itself have several parts (the context rule of `~` only looks at pending
+operators of precedence ≤ -100, a pending `|` has -50). -/
+theorem toplevel_parses (multistage : Bool) (l : Proofs.C01Grammar.Sum) (ltail : List Proofs.C01Grammar.Sum)
+    (p : Proofs.C01Grammar.Sum) (tail : List Proofs.C01Grammar.Sum) :
+    tokensToAst (Gen.defaultTable true true multistage)
+        (partsToks l ltail ++ opTok ['~'] :: partsToks p tail)
+      = .ok (some (.node tilde [partsTree l ltail, partsTree p tail])) := by
+  rw [table_is_documented]
+  exact twosided_parses_doc true multistage l ltail p tail (Or.inr rfl)
+
+/-- C01.3b  `lhs ~ rhs` with one part on each side needs TWOSIDED only: under either value of MULTIPART
+and MULTISTAGE it parses to `~(tree lhs, tree rhs)`. -/
+theorem twosided_parses (multipart multistage : Bool) (l p : Proofs.C01Grammar.Sum) :
+    tokensToAst (Gen.defaultTable true multipart multistage)
+        (lin (Proofs.C01Grammar.toE l) ++ opTok ['~'] :: lin (Proofs.C01Grammar.toE p))
+      = .ok (some (.node tilde [strip (Proofs.C01Grammar.toE l), strip (Proofs.C01Grammar.toE p)])) := by
+  rw [table_is_documented]
+  exact twosided_parses_doc multipart multistage l [] p [] (Or.inl ⟨rfl, rfl⟩)
+
+/-- C01.3c  The one-sided multi-part formula `p | q₁ | … | qₙ` needs MULTIPART only: under either value
+of TWOSIDED and MULTISTAGE it parses to `side(p, q₁…qₙ)`. -/
+theorem multipart_parses (twosided multistage : Bool) (p : Proofs.C01Grammar.Sum)
+    (tail : List Proofs.C01Grammar.Sum) :
+    tokensToAst (Gen.defaultTable twosided true multistage) (partsToks p tail)
+      = .ok (some (partsTree p tail)) := by
+  rw [table_is_documented]
+  exact multipart_parses_doc twosided true multistage p tail (Or.inr rfl)
+
+/-- C01.3d  The one-sided form written with a leading `~` (`~ p | q₁ | … | qₙ`) parses to
+`~(side(p, q₁…qₙ))` with the PREFIX `~`, under every flag subset (MULTIPART as soon as `n ≥ 1`): in
+operand position the two infix candidates of the `~` token are skipped. -/
+theorem onesided_tilde_parses (twosided multipart multistage : Bool) (p : Proofs.C01Grammar.Sum)
+    (tail : List Proofs.C01Grammar.Sum) (h : tail = [] ∨ multipart = true) :
+    tokensToAst (Gen.defaultTable twosided multipart multistage) (opTok ['~'] :: partsToks p tail)
+      = .ok (some (.node tildeP [partsTree p tail])) := by
+  rw [table_is_documented]
+  exact onesided_tilde_parses_doc twosided multipart multistage p tail h
+
+/-- C01.3e  **What the top level rejects**, for all operands. (1) Without MULTIPART a `|` after a
+part is a syntax error whatever follows (one-sided, and on the right of a `~`). (2) Without TWOSIDED
+`lhs ~ rhs` is a syntax error: the `~` token falls through to the one-sided prefix `~`, which leaves
+the two trees `lhs` and `~rhs` on the output queue ("missing operator"). (3) A formula has at most
+one `~`: `lhs ~ rhs ~ …` is a syntax error under every flag subset, whatever follows the second `~`. -/
+theorem toplevel_rejects (a b c : Bool) (l : Proofs.C01Grammar.Sum) (ltail : List Proofs.C01Grammar.Sum)
+    (p : Proofs.C01Grammar.Sum) (tail : List Proofs.C01Grammar.Sum) (rest : List Tok) :
+    tokensToAst (Gen.defaultTable a false c) (lin (Proofs.C01Grammar.toE p) ++ opTok ['|'] :: rest)
+        = .error (.syntax "operator incorrectly used or disabled")
+    ∧ tokensToAst (Gen.defaultTable true false c)
+        (lin (Proofs.C01Grammar.toE l) ++ opTok ['~'] :: (lin (Proofs.C01Grammar.toE p) ++ opTok ['|'] :: rest))
+        = .error (.syntax "operator incorrectly used or disabled")
+    ∧ (((ltail = [] ∧ tail = []) ∨ b = true) →
+        tokensToAst (Gen.defaultTable false b c) (partsToks l ltail ++ opTok ['~'] :: partsToks p tail)
+          = .error (.syntax "missing operator"))
+    ∧ (((ltail = [] ∧ tail = []) ∨ b = true) →
+        tokensToAst (Gen.defaultTable a b c)
+            (partsToks l ltail ++ opTok ['~'] :: (partsToks p tail ++ opTok ['~'] :: rest))
+          = .error (.syntax "operator incorrectly used or disabled")) := by
+  simp only [table_is_documented]
+  exact ⟨multipart_off_rejected_doc a c p rest, multipart_off_rhs_rejected_doc c l p rest,
+    fun h => twosided_off_rejected_doc b c l ltail p tail h,
+    fun h => second_tilde_rejected_doc a b c l ltail p tail h rest⟩
+
+/-- C01.7a  **A formula evaluates to the documented structure.** For the trees of C01.3a whose parts
+evaluate to plain term sets (`sl, sls = [sl₁…slₘ]` on the left, `s, ss = [s₁…sₙ]` on the right; the
+`i`-th tree of a tail evaluates to the `i`-th set), the evaluation is
+`Structured(lhs = side, rhs = side)` — exactly the keys `lhs`, `rhs`, in this order
+(`mkStruct_lhs_rhs`) — where `partsVal s [] = set s` for a single part and
+`partsVal s [s₁…sₙ] = tuple [set s, set s₁, …, set sₙ]` for `n ≥ 1`: the flat tuple of the parts, in
+order, no nesting (although the `|` chain is nested to the right in the tree). -/
+theorem eval_toplevel (dot : DotCtx) (l : Proofs.C01Grammar.Sum) (ltail : List Proofs.C01Grammar.Sum)
+    (p : Proofs.C01Grammar.Sum) (tail : List Proofs.C01Grammar.Sum)
+    (sl : List Term) (sls : List (List Term)) (s : List Term) (ss : List (List Term))
+    (hl : evalAst dot (strip (Proofs.C01Grammar.toE l)) = .ok (.set sl))
+    (hls : ltail.map (fun q => evalAst dot (strip (Proofs.C01Grammar.toE q)))
+      = sls.map (fun x => Except.ok (Val.set x)))
+    (hp : evalAst dot (strip (Proofs.C01Grammar.toE p)) = .ok (.set s))
+    (hps : tail.map (fun q => evalAst dot (strip (Proofs.C01Grammar.toE q)))
+      = ss.map (fun x => Except.ok (Val.set x))) :
+    evalAst dot (.node tilde [partsTree l ltail, partsTree p tail])
+      = .ok (mkStruct [("lhs", partsVal sl sls), ("rhs", partsVal s ss)] none) :=
+  eval_toplevel_doc dot l ltail p tail sl sls s ss hl hls hp hps
+
+/-- C01.7b  The one-sided forms: `p | q₁ | … | qₙ` evaluates to `partsVal s [s₁…sₙ]` (the term set for
+`n = 0`, the tuple of the term sets for `n ≥ 1`), and so does `~ p | q₁ | … | qₙ`. -/
+theorem eval_onesided (dot : DotCtx) (p : Proofs.C01Grammar.Sum) (tail : List Proofs.C01Grammar.Sum)
+    (s : List Term) (ss : List (List Term))
+    (hp : evalAst dot (strip (Proofs.C01Grammar.toE p)) = .ok (.set s))
+    (hps : tail.map (fun q => evalAst dot (strip (Proofs.C01Grammar.toE q)))
+      = ss.map (fun x => Except.ok (Val.set x))) :
+    evalAst dot (partsTree p tail) = .ok (partsVal s ss)
+    ∧ evalAst dot (.node tildeP [partsTree p tail]) = .ok (partsVal s ss) :=
+  ⟨eval_partsTree dot p tail s ss hp hps, eval_tildeP dot _ _ (eval_partsTree dot p tail s ss hp hps)⟩
+
+/-- C01.7c  … and the hypotheses of C01.7a are the only way to succeed: for ALL `Sum`s, the tree of
+`l | … ~ p | …` either evaluates to the documented structure (and then every part evaluated to a
+term set) or fails with the parsing error — no other value, no internal exception. -/
+theorem eval_toplevel_total (dot : DotCtx) (l : Proofs.C01Grammar.Sum) (ltail : List Proofs.C01Grammar.Sum)
+    (p : Proofs.C01Grammar.Sum) (tail : List Proofs.C01Grammar.Sum) :
+    (∃ sl sls s ss, evalAst dot (strip (Proofs.C01Grammar.toE l)) = .ok (.set sl) ∧
+        ltail.map (fun q => evalAst dot (strip (Proofs.C01Grammar.toE q)))
+          = sls.map (fun x => Except.ok (Val.set x)) ∧
+        evalAst dot (strip (Proofs.C01Grammar.toE p)) = .ok (.set s) ∧
+        tail.map (fun q => evalAst dot (strip (Proofs.C01Grammar.toE q)))
+          = ss.map (fun x => Except.ok (Val.set x)) ∧
+        evalAst dot (.node tilde [partsTree l ltail, partsTree p tail])
+          = .ok (.struct [("lhs", partsVal sl sls), ("rhs", partsVal s ss)])) ∨
+    (∃ w, evalAst dot (.node tilde [partsTree l ltail, partsTree p tail]) = .error (.syntax w)) :=
+  Proofs.C01TopLevel.eval_toplevel_total dot l ltail p tail
+
+private def tY : Tok := { text := ['y'], kind := some .name }
+private def tZ : Tok := { text := ['z'], kind := some .name }
+private def sumOf (t : Tok) (h : t.kind ≠ some .context ∧ t.kind ≠ some .operator) : Proofs.C01Grammar.Sum :=
+  .first none (.inter (.pow (.atom (.tok t h))))
+private def sY := sumOf tY ⟨by decide, by decide⟩
+private def sZ := sumOf tZ ⟨by decide, by decide⟩
+private def sC := sumOf tC ⟨by decide, by decide⟩
+private def sAB : Proofs.C01Grammar.Sum :=
+  .add .plus (sumOf tA ⟨by decide, by decide⟩) (.inter (.pow (.atom (.tok tB ⟨by decide, by decide⟩))))
+private def dot0 : DotCtx := { available := none, usedLhs := [] }
+private def termOf (c : Char) : Term := [Factor.mk (String.ofList [c]) .lookup]
+
+/-- non-vacuity: `y ~ a + b | c` is an instance of C01.3a (`l = y`, no further left parts, `p = a + b`,
+`tail = [c]`) — the theorem yields `~(y, |(a + b, c))` for the live table — and running the model on
+these seven tokens gives the same tree (`rfl`) -/
+example : tokensToAst (Gen.defaultTable true true false)
+      [tY, opTok ['~'], tA, opTok ['+'], tB, opTok ['|'], tC]
+    = .ok (some (.node tilde [.leaf tY, .node bar [.node plusB [.leaf tA, .leaf tB], .leaf tC]])) :=
+  toplevel_parses false sY [] sAB [sC]
+
+example : tokensToAst (Gen.defaultTable true true false)
+      [tY, opTok ['~'], tA, opTok ['+'], tB, opTok ['|'], tC]
+    = .ok (some (.node tilde [.leaf tY, .node bar [.node plusB [.leaf tA, .leaf tB], .leaf tC]])) := by rfl
+
+/-- non-vacuity of C01.7a on the same formula: the parts evaluate to `{y}`, `{a, b}`, `{c}`, and the
+theorem yields `{lhs: {y}, rhs: ({a, b}, {c})}`; running the evaluator gives the same value -/
+example : evalAst dot0 (.node tilde [.leaf tY, .node bar [.node plusB [.leaf tA, .leaf tB], .leaf tC]])
+    = .ok (.struct [("lhs", .set [termOf 'y']),
+        ("rhs", .tuple [.set [termOf 'a', termOf 'b'], .set [termOf 'c']])]) :=
+  (eval_toplevel dot0 sY [] sAB [sC] [termOf 'y'] [] [termOf 'a', termOf 'b'] [[termOf 'c']]
+    (by rfl) (by rfl) (by rfl) (by rfl)).trans (by rfl)
+
+example : evalAst dot0 (.node tilde [.leaf tY, .node bar [.node plusB [.leaf tA, .leaf tB], .leaf tC]])
+    = .ok (.struct [("lhs", .set [termOf 'y']),
+        ("rhs", .tuple [.set [termOf 'a', termOf 'b'], .set [termOf 'c']])]) := by rfl
+
+/-- CORNER: a chain of parts is nested to the RIGHT — `a | b | c` is `|(a, |(b, c))`, not
+`|(|(a, b), c)`: `|` has associativity `None` and the shunting-yard pops an operator of equal
+precedence only for a LEFT-associative incoming operator. The denoted tuple is the same (C01.7). -/
+example (ts ms : Bool) : tokensToAst (Gen.defaultTable ts true ms) [tA, opTok ['|'], tB, opTok ['|'], tC]
+    = .ok (some (.node bar [.leaf tA, .node bar [.leaf tB, .leaf tC]])) :=
+  multipart_parses ts ms (sumOf tA ⟨by decide, by decide⟩) [sumOf tB ⟨by decide, by decide⟩, sC]
+
+/-- a multi-part LEFT-hand side is accepted: `y | z ~ a + b | c` is `~(|(y, z), |(a + b, c))` -/
+example : tokensToAst (Gen.defaultTable true true true)
+      [tY, opTok ['|'], tZ, opTok ['~'], tA, opTok ['+'], tB, opTok ['|'], tC]
+    = .ok (some (.node tilde [.node bar [.leaf tY, .leaf tZ],
+        .node bar [.node plusB [.leaf tA, .leaf tB], .leaf tC]])) :=
+  toplevel_parses true sY [sZ] sAB [sC]
+
+/-- the rejections on concrete inputs: `a | b` without MULTIPART, `y ~ a` without TWOSIDED, `y ~ a ~ b` -/
+example : tokensToAst (Gen.defaultTable true false false) [tA, opTok ['|'], tB]
+      = .error (.syntax "operator incorrectly used or disabled")
+    ∧ tokensToAst (Gen.defaultTable false true false) [tY, opTok ['~'], tA] = .error (.syntax "missing operator")
+    ∧ tokensToAst (Gen.defaultTable true true false) [tY, opTok ['~'], tA, opTok ['~'], tB]
+      = .error (.syntax "operator incorrectly used or disabled") := ⟨rfl, rfl, rfl⟩
+
+end TopLevel
 
 end FormulaicVerif.Props.C01
